@@ -27,7 +27,15 @@ pub struct PaddingFactory {
 static DEFAULT_FACTORY: std::sync::RwLock<Option<Arc<PaddingFactory>>> =
     std::sync::RwLock::new(None);
 
+/// Number of times the process-wide default has been replaced by `update_default`
+static DEFAULT_UPDATES: std::sync::atomic::AtomicU64 = std::sync::atomic::AtomicU64::new(0);
+
 impl PaddingFactory {
+    /// How often the process-wide default has been replaced (by a server push) so far
+    pub fn default_updates() -> u64 {
+        DEFAULT_UPDATES.load(std::sync::atomic::Ordering::SeqCst)
+    }
+
     /// Create a new PaddingFactory from raw scheme bytes
     pub fn new(raw_scheme: &[u8]) -> Result<Self, String> {
         let scheme = StringMap::from_bytes(raw_scheme);
@@ -78,6 +86,7 @@ impl PaddingFactory {
     pub fn update_default(raw_scheme: &[u8]) -> Result<(), String> {
         let factory = Arc::new(Self::new(raw_scheme)?);
         *DEFAULT_FACTORY.write().unwrap_or_else(|e| e.into_inner()) = Some(factory);
+        DEFAULT_UPDATES.fetch_add(1, std::sync::atomic::Ordering::SeqCst);
         Ok(())
     }
 
